@@ -546,6 +546,22 @@ int main(void)
 			}
 		}
 #endif
+#ifndef DRV_ELEM
+		else if (!strcmp(op, "bsetas") && drv_nw == 6) {
+			/* mpt_buffer_set with an element type named by the caller */
+			const MPT_STRUCT(type_traits) *t = traits_by_name(drv_w[3], &ok);
+			if (!ok || opnd(drv_w[4], h, &a) || data_arg(drv_w[5], h, &dat, &dlen, &isnull)) BAD;
+			MPT_STRUCT(buffer) *r = arr->_buf;
+			size_t need = r ? r->_used : 0;
+			if (a + dlen > need) need = a + dlen;
+			if (r) r = r->_vptr->detach(r, need);
+			if (!r) result("refused", "-", "null", 0);
+			else {
+				arr->_buf = r;
+				result_int(mpt_buffer_set(r, t, a, isnull ? 0 : dat, dlen), "-");
+			}
+		}
+#endif
 		else if (!strcmp(op, "bset") && drv_nw == 5) {
 #ifdef DRV_ELEM
 			uint8_t *src = 0;
